@@ -35,6 +35,8 @@ type histOp struct {
 	Type int    `json:"type,omitempty"` // create: type of the new instance
 	Key  int    `json:"key,omitempty"`
 	N    int    `json:"n,omitempty"` // bulk: number of data written
+	// delete: immediately (while the purge may still run) request a new instance under the same name
+	Eager bool `json:"eager,omitempty"`
 }
 
 type histCase struct {
@@ -420,10 +422,13 @@ func (w *world) checkEmpty(ri, si int, o *obs, what string) error {
 	return nil
 }
 
-func (w *world) deleteInstance(ri, si int, what string) error {
+func (w *world) deleteInstance(ri, si int, what string, eager bool) error {
 	r := w.repos[ri]
 	in := r.slots[si]
 	name := slotNames[si]
+	if eager {
+		return w.deleteAndRecreateAtOnce(ri, si, what)
+	}
 	// the documented way to delete an instance: RPC command "repo <uuid> delete <name> <passcode>" (no HTTP route exists)
 	if err := stats.PanicGuard("C06/rpc-repo-delete/panic", func() error {
 		_, err := server.VerifRPC("repo", r.root, "delete", name, "")
@@ -453,6 +458,94 @@ func (w *world) deleteInstance(ri, si int, what string) error {
 	}
 	w.dead[in.id] = fmt.Sprintf("%s type %s", instKey(ri, si), typeNames[in.typ])
 	r.slots[si] = nil
+	return nil
+}
+
+// deleteAndRecreateAtOnce: delete an instance and, without waiting for the background purge, ask for a new instance
+// of the same type under the same name.  Whatever the answer, an acknowledged creation must still be there once the
+// purge of the old instance has finished, as an empty instance with a fresh id; a refusal is fine.
+func (w *world) deleteAndRecreateAtOnce(ri, si int, what string) error {
+	r := w.repos[ri]
+	in := r.slots[si]
+	name := slotNames[si]
+	if err := stats.PanicGuard("C06/rpc-repo-delete/panic", func() error {
+		_, err := server.VerifRPC("repo", r.root, "delete", name, "")
+		return err
+	}); err != nil {
+		if stats.SigOf(err) != "" {
+			return err
+		}
+		return stats.Violf("C06/delete-instance/refused", "%s: %v", what, err)
+	}
+	m := map[string]string{"typename": typeNames[in.typ], "dataname": name}
+	for k, v := range instConfig(in.typ) {
+		m[k] = v
+	}
+	b, _ := json.Marshal(m)
+	resp := drive.Post("repo/"+r.uuids[len(r.uuids)-1]+"/instance", b)
+	if resp.IsPanic() {
+		return stats.Violf("C06/POST-repo-instance/panic", "%s: %s", what, resp)
+	}
+	acked := resp.OK()
+	// wait until the old instance's keys are purged and the listing is stable for a while
+	minK, maxK := storage.DataInstanceKeyRange(in.id)
+	deadline := time.Now().Add(120 * time.Second)
+	stable := 0
+	for stable < 25 {
+		if time.Now().After(deadline) {
+			return fmt.Errorf("harness: %s: purge of the deleted instance did not settle in 120 s", what)
+		}
+		left := 0
+		if d, err := datastore.GetDataByUUIDName(dvid.UUID(r.root), dvid.InstanceName(name)); err == nil && d.InstanceID() == in.id {
+			left = 1 // old instance still registered
+		}
+		if left == 0 {
+			if store, err := storage.DefaultKVStore(); err == nil {
+				if odb, ok := store.(storage.OrderedKeyValueDB); ok {
+					ch := make(chan *storage.KeyValue, 8)
+					go odb.RawRangeQuery(minK, maxK, true, ch, nil)
+					for kv := range ch {
+						if kv == nil {
+							break
+						}
+						left++
+					}
+				}
+			}
+		}
+		if left == 0 {
+			stable++
+		} else {
+			stable = 0
+		}
+		time.Sleep(2 * time.Millisecond)
+	}
+	w.dead[in.id] = fmt.Sprintf("%s type %s", instKey(ri, si), typeNames[in.typ])
+	old := in
+	r.slots[si] = nil
+	d, err := datastore.GetDataByUUIDName(dvid.UUID(r.root), dvid.InstanceName(name))
+	if !acked {
+		if err == nil && d.InstanceID() != old.id {
+			return stats.Violf("C06/recreate-during-purge/refused-creation-exists", "%s: creation answered %s but an instance %q (id %d) exists", what, resp, name, d.InstanceID())
+		}
+		w.class("hist/recreate-during-purge/refused")
+		return nil
+	}
+	w.class("hist/recreate-during-purge/acknowledged")
+	if err != nil {
+		return stats.Violf("C06/recreate-during-purge/acknowledged-instance-vanished", "%s: POST instance %q was acknowledged (%s) while the old instance (id %d) was being deleted, but after the purge the name is gone: %v", what, name, resp, old.id, err)
+	}
+	id := d.InstanceID()
+	if id == old.id {
+		return stats.Violf("C06/recreate-during-purge/old-instance-still-registered", "%s: instance %q still has the deleted instance's id %d", what, name, id)
+	}
+	desc := fmt.Sprintf("%s type %s (%s, re-created during purge)", instKey(ri, si), typeNames[old.typ], what)
+	if prev, dup := seenIDs[id]; dup {
+		return stats.Violf("C06/create-instance/instance-id-reused", "%s got instance id %d, which was handed out before to %s", desc, id, prev)
+	}
+	seenIDs[id] = desc
+	w.caseIDs[id] = desc
+	r.slots[si] = &inst{typ: old.typ, id: id, written: map[string]bool{}}
 	return nil
 }
 
@@ -653,7 +746,7 @@ func runHistory(c histCase) (cls []string, err error) {
 				w.class("hist/delete-skipped-by-known-finding")
 				continue
 			}
-			if err := w.deleteInstance(ri, si, what); err != nil {
+			if err := w.deleteInstance(ri, si, what, op.Eager); err != nil {
 				return nil, err
 			}
 			deletions++
@@ -967,6 +1060,8 @@ func genHistory(t *rapid.T) histCase {
 			}
 		case "create":
 			op.Type = typeGen.Draw(t, "type")
+		case "delete":
+			op.Eager = rapid.IntRange(0, 3).Draw(t, "eager") == 0
 		}
 		return op
 	}
